@@ -31,7 +31,7 @@ type Inner struct {
 }
 
 // Fields of the query root. Every field has its own reactive resource, version and failure budget.
-var Fields = []string{"a", "s", "flag", "obj", "items"}
+var Fields = []string{"a", "s", "flag", "obj", "items", "tick"}
 
 type failSpec struct {
 	N    int    // number of executions that still fail
@@ -46,10 +46,15 @@ type World struct {
 	Flag  bool
 	Obj   *Inner
 	Items []Item
+	Tick  int64
 	ver   map[string]int
 	res   map[string]*reactive.Resource
 	fail  map[string]*failSpec
 	rec   *Recorder
+
+	tickBudget  int // number of short (3 ms) timers the tick resolver may still arm
+	shortTimers int // short timers armed and neither fired nor stopped
+	nextRes     int
 }
 
 func NewWorld(rec *Recorder) *World {
@@ -80,6 +85,9 @@ func worldOf(ctx context.Context) *World {
 func (w *World) read(ctx context.Context, field string) error {
 	reactive.AddDependency(ctx, w.currentRes(field), nil)
 	tok, _ := ctx.Value(runKey{}).(*RunTok)
+	if tok != nil {
+		w.register(ctx, tok, 0)
+	}
 	w.mu.Lock()
 	v := w.ver[field]
 	var fs failSpec
@@ -112,6 +120,73 @@ func (w *World) read(ctx context.Context, field string) error {
 		}
 	}
 	return nil
+}
+
+// register gives the computation a resource of its own with a Cleanup callback (what livesql and
+// reactive.InvalidateAfter do); with d > 0 the resource is a timer that changes the tick and invalidates.
+func (w *World) register(ctx context.Context, tok *RunTok, d time.Duration) {
+	res := reactive.NewResource()
+	w.mu.Lock()
+	n := w.nextRes
+	w.nextRes++
+	short := d > 0 && d < time.Minute
+	if short {
+		w.shortTimers++
+	}
+	w.mu.Unlock()
+	var timer *time.Timer
+	done := false // guarded by w.mu: the short timer has been accounted for
+	settle := func() {
+		w.mu.Lock()
+		if short && !done {
+			done = true
+			w.shortTimers--
+		}
+		w.mu.Unlock()
+	}
+	if d > 0 {
+		timer = time.AfterFunc(d, func() {
+			w.mu.Lock()
+			w.Tick++
+			w.mu.Unlock()
+			w.rec.add(Event{Kind: "touch", Field: "tick"})
+			w.Touch("tick", false)
+			res.Invalidate()
+			settle()
+		})
+	}
+	w.rec.add(Event{Kind: "register", Run: tok.N, Gen: tok.Gen, Res: n})
+	res.Cleanup(func() {
+		if timer != nil && timer.Stop() {
+			settle()
+		}
+		w.rec.add(Event{Kind: "cleanup", Res: n})
+	})
+	reactive.AddDependency(ctx, res, nil)
+}
+
+// ShortTimers is the number of 3 ms timers that are armed: data is about to change by itself.
+func (w *World) ShortTimers() int {
+	w.mu.Lock()
+	defer w.mu.Unlock()
+	return w.shortTimers
+}
+
+func (w *World) ArmTicks(n int) {
+	w.mu.Lock()
+	w.tickBudget = n
+	w.mu.Unlock()
+}
+
+// Versions is a snapshot of all field versions.
+func (w *World) Versions() map[string]int {
+	w.mu.Lock()
+	defer w.mu.Unlock()
+	m := map[string]int{}
+	for k, v := range w.ver {
+		m[k] = v
+	}
+	return m
 }
 
 func (w *World) currentRes(field string) *reactive.Resource {
@@ -232,6 +307,26 @@ func Schema() *graphql.Schema {
 			}
 			return out, nil
 		})
+		q.FieldFunc("tick", func(ctx context.Context) (int64, error) {
+			w := worldOf(ctx)
+			if err := w.read(ctx, "tick"); err != nil {
+				return 0, err
+			}
+			if tok, _ := ctx.Value(runKey{}).(*RunTok); tok != nil {
+				// an InvalidateAfter-style timer: a few short ones per case, otherwise one that never fires
+				d := time.Hour
+				w.mu.Lock()
+				if w.tickBudget > 0 {
+					w.tickBudget--
+					d = 3 * time.Millisecond
+				}
+				w.mu.Unlock()
+				w.register(ctx, tok, d)
+			}
+			w.mu.Lock()
+			defer w.mu.Unlock()
+			return w.Tick, nil
+		})
 		sb.Object("Item", Item{})
 		sb.Object("Inner", Inner{})
 		m := sb.Mutation()
@@ -272,6 +367,8 @@ var SubQueries = []string{
 	`{ s flag items { id n } }`,
 	`query Q { first: a second: a s }`,
 	`{ flag }`,
+	`{ tick }`,
+	`{ tick a }`,
 	// rejected by Parse / PrepareQuery
 	`{ nope }`,
 	`{ a `,
@@ -279,7 +376,7 @@ var SubQueries = []string{
 	`{ items }`,
 }
 
-const FirstBadSubQuery = 8
+const FirstBadSubQuery = 10
 
 var MutQueries = []string{
 	`mutation { setA(value: 7) }`,
